@@ -163,6 +163,36 @@ class RtrEngine(object):
                                      "vtx%d" % i))
         return objs[0], nodes
 
+    def rebuild_tree(self, tree):
+        """A structurally equal tree made of new objects, the children of
+        each node in a drawn other order."""
+        t = self.t
+        root, _nodes = tree
+        new_root = self.RoutingTree(root.chip)
+        nodes = [(None, new_root)]
+        stack = [(root, new_root)]
+        while stack:
+            old, new = stack.pop()
+            kids = list(old.children)
+            k = t.draw(3)
+            if k == 0:
+                kids.reverse()
+            elif k == 1 and len(kids) > 1:
+                r = 1 + t.draw(len(kids) - 1)
+                kids = kids[r:] + kids[:r]
+            else:
+                kids.sort(key=lambda ro: (-1 if ro[0] is None else
+                                          -int(ro[0])))
+            for r, obj in kids:
+                if isinstance(obj, self.RoutingTree):
+                    child = self.RoutingTree(obj.chip)
+                    new.children.append((r, child))
+                    nodes.append((int(r), child))
+                    stack.append((obj, child))
+                else:
+                    new.children.append((r, obj))
+        return new_root, nodes
+
     def join_tree(self, tree, W, H):
         """A new tree whose root is a chip next to some non-root node N of
         ``tree`` and which continues with N's subtree (same objects)."""
@@ -240,7 +270,14 @@ class RtrEngine(object):
                 # share key and mask with an earlier tree
                 j = t.draw(len(kms))
                 net_keys[net] = kms[j]
-                mode = t.draw(3)
+                mode = t.draw(4)
+                if mode == 3:
+                    # an equal tree built separately, its children listed in
+                    # another order (order is not significant)
+                    trees[net] = self.rebuild_tree(trees["net%d" % j])
+                    kms.append(kms[j])
+                    w.probe("equal_tree_rebuilt")
+                    continue
                 if mode == 0:
                     # the very same tree again
                     trees[net] = trees["net%d" % j]
